@@ -8,7 +8,7 @@ from .report import Sub, load_known, Ctx
 
 # property -> [(source property, [rule ids] or None for all)]
 RELATED = {
-    "C01": [("C27", ["C27.R1", "C27.R2", "C27.R3"]), ("C28", ["C28.R4"])],   # constant expressions and literal typing are part of the front-end's meaning
+    "C01": [("C27", ["C27.R1", "C27.R2", "C27.R3", "C27.R5"]), ("C28", ["C28.R4"])],   # constant expressions and literal typing are part of the front-end's meaning
     "C02": [("C03", None), ("C38", None)],                                     # a pass that corrupts the IR or folds wrongly changes behaviour
     "C03": [("C02", ["C02.R2", "C02.R7"])],                                    # replace_use discipline / tail-call rewrite keep def-use and block structure intact
     "C04": [("C06", None), ("C40", None)],                                     # x86-64 native code = selection + allocation + SysV ABI
